@@ -7,8 +7,10 @@ import (
 	"math/rand"
 	"net/http"
 	"net/url"
+	"runtime"
 	"sort"
 	"strings"
+	"time"
 	"unicode"
 
 	"google.golang.org/protobuf/encoding/protojson"
@@ -39,10 +41,21 @@ type reqSpec struct {
 	// Cuts / EOFWithData: the body is delivered by a fragmenting reader.
 	Cuts        []int `json:"cuts,omitempty"`
 	EOFWithData bool  `json:"eof_with_data,omitempty"`
+	// Slow: the reader yields the processor before every read (widens the
+	// overlap of concurrent requests).
+	Slow bool `json:"slow,omitempty"`
 	// Transport names the single non-default delivery feature of the request
 	// (finding keys): one of the modes, "fragmented-reads",
 	// "gzip-members=N", "gzip-empty-member".
 	Transport string `json:"transport,omitempty"`
+}
+
+type yieldReader struct{ r io.Reader }
+
+func (y yieldReader) Read(b []byte) (int, error) {
+	runtime.Gosched()
+	time.Sleep(20 * time.Microsecond)
+	return y.r.Read(b)
 }
 
 type plainReader struct{ r io.Reader }
@@ -56,6 +69,9 @@ func (q reqSpec) build() *http.Request {
 	var rd io.Reader = bytes.NewReader(q.Body)
 	if len(q.Cuts) > 0 || q.EOFWithData {
 		rd = &wire.ScriptReader{Data: q.Body, Cuts: q.Cuts, EOFWithData: q.EOFWithData}
+	}
+	if q.Slow {
+		rd = yieldReader{rd}
 	}
 	cl := int64(len(q.Body))
 	switch q.Mode {
